@@ -53,4 +53,109 @@ theorem storeMarker_silent {P : String} (bodyAnn patchAnn : Kvs) (h : writesMark
     storeMarker P bodyAnn patchAnn = patchAnn := by
   simp [storeMarker, h]
 
+/-! ### the merge of the storage's patch into the annotations -/
+
+theorem filter_insert_drop {q : String → Bool} {k : String} (v : J) (hq : q k = false) :
+    ∀ (l : Kvs), (J.insert k v l).filter (fun kv => q kv.1) = l.filter (fun kv => q kv.1)
+  | [] => by simp [J.insert, hq]
+  | (k2, v2) :: l => by
+    by_cases e : k2 = k
+    · subst e; simp [J.insert, List.filter_cons, hq]
+    · simp [J.insert, e, List.filter_cons, filter_insert_drop v hq l]
+
+theorem filter_erase_drop {q : String → Bool} {k : String} (hq : q k = false) :
+    ∀ (l : Kvs), (erase k l).filter (fun kv => q kv.1) = l.filter (fun kv => q kv.1)
+  | [] => by simp [erase]
+  | (k2, v2) :: l => by
+    by_cases e : k2 = k
+    · subst e; simp [erase, List.filter_cons, hq, filter_erase_drop hq l]
+    · simp [erase, e, List.filter_cons, filter_erase_drop hq l]
+
+theorem mergeKvs_cons (t : Kvs) (k : String) (v : J) (rest : Kvs) :
+    mergeKvs t ((k, v) :: rest) =
+      if v.isNull then mergeKvs (erase k t) rest
+      else mergeKvs (J.insert k (mergePatch ((lookup k t).getD .null) v) t) rest := by
+  cases v <;> simp [mergeKvs, isNull]
+
+theorem filter_mergeKvs {q : String → Bool} : ∀ (patch t : Kvs), (∀ k, k ∈ keys patch → q k = false) →
+    (mergeKvs t patch).filter (fun kv => q kv.1) = t.filter (fun kv => q kv.1)
+  | [], t, _ => by simp [mergeKvs]
+  | (k, v) :: rest, t, h => by
+    have hk : q k = false := h k (by simp [keys])
+    have hr : ∀ k', k' ∈ keys rest → q k' = false := fun k' hk' => h k' (by simp [keys] at hk' ⊢; exact Or.inr hk')
+    rw [mergeKvs_cons]
+    by_cases hv : v.isNull = true
+    · simp only [hv, if_true]; rw [filter_mergeKvs rest _ hr, filter_erase_drop hk]
+    · simp only [hv, if_false, Bool.false_eq_true]; rw [filter_mergeKvs rest _ hr, filter_insert_drop _ hk]
+
+theorem hasKey_mergeKvs_other {k : String} : ∀ (patch t : Kvs), k ∉ keys patch →
+    hasKey k (mergeKvs t patch) = hasKey k t
+  | [], t, _ => by simp [mergeKvs]
+  | (k2, v) :: rest, t, h => by
+    have hne : k ≠ k2 := fun e => h (by simp [keys, e])
+    have hr : k ∉ keys rest := fun hm => h (by simp [keys] at hm ⊢; exact Or.inr hm)
+    rw [mergeKvs_cons]
+    by_cases hv : v.isNull = true
+    · simp only [hv, if_true]
+      rw [hasKey_mergeKvs_other rest _ hr]
+      cases ha : hasKey k (erase k2 t) with
+      | true => exact ((hasKey_erase k2 k t).1 ha).1.symm
+      | false =>
+        cases hb : hasKey k t with
+        | false => rfl
+        | true =>
+          have := (hasKey_erase k2 k t).2 ⟨hb, fun e => hne e.symm⟩
+          rw [ha] at this; cases this
+    · simp only [hv, if_false, Bool.false_eq_true]
+      rw [hasKey_mergeKvs_other rest _ hr, hasKey_insert_other _ t hne]
+
+theorem mem_keys_iff_hasKey {k : String} {l : Kvs} : k ∈ keys l ↔ hasKey k l = true := by
+  simp [keys, hasKey, List.any_eq_true]
+
+theorem insert_append_of_absent {k : String} (v : J) : ∀ (l : Kvs), hasKey k l = false → J.insert k v l = l ++ [(k, v)]
+  | [], _ => rfl
+  | (k2, v2) :: l, h => by
+    simp at h
+    simp [J.insert, h.1, insert_append_of_absent v l h.2]
+
+theorem mergeKvs_append : ∀ (p1 p2 t : Kvs), mergeKvs t (p1 ++ p2) = mergeKvs (mergeKvs t p1) p2
+  | [], p2, t => by simp [mergeKvs]
+  | (k, v) :: rest, p2, t => by
+    rw [List.cons_append, mergeKvs_cons, mergeKvs_cons]
+    by_cases hv : v.isNull = true
+    · simp only [hv, if_true]; exact mergeKvs_append rest p2 _
+    · simp only [hv, if_false, Bool.false_eq_true]; exact mergeKvs_append rest p2 _
+
+/-- after a Kopf annotations storage's patch (with what `_store_marker` adds) is merged, the marker is
+    among the annotations whenever the storage writes one. -/
+theorem marker_after_write {P : String} (A patchAnn : Kvs) (hw : writesMarker P = true)
+    (hnm : markerKey P ∉ keys patchAnn) :
+    markerKey P ∈ keys (mergeKvs A (storeMarker P A patchAnn)) := by
+  rw [mem_keys_iff_hasKey]
+  unfold storeMarker
+  by_cases hb : (keys A).contains (markerKey P) = true
+  · simp only [hw, hb, Bool.not_true, Bool.and_false, Bool.false_and, Bool.false_eq_true, if_false]
+    rw [hasKey_mergeKvs_other patchAnn A hnm]
+    exact mem_keys_iff_hasKey.1 (by simpa using hb)
+  · have hp : (keys patchAnn).contains (markerKey P) = false := by simpa using hnm
+    simp only [hw, hb, hp, Bool.not_false, Bool.and_true, Bool.true_and, if_true]
+    have habs : hasKey (markerKey P) patchAnn = false := by
+      cases h : hasKey (markerKey P) patchAnn with
+      | false => rfl
+      | true => exact absurd (mem_keys_iff_hasKey.2 h) hnm
+    rw [insert_append_of_absent _ _ habs, mergeKvs_append, mergeKvs_cons]
+    simp only [isNull, Bool.false_eq_true, if_false, mergeKvs]
+    exact lookup_some_hasKey (lookup_insert_same _ _ _)
+
+theorem keys_storeMarker {P : String} (A patchAnn : Kvs) {k : String} (h : k ∈ keys (storeMarker P A patchAnn)) :
+    k ∈ keys patchAnn ∨ k = markerKey P := by
+  unfold storeMarker at h
+  split at h
+  · rw [mem_keys_iff_hasKey] at h
+    by_cases e : k = markerKey P
+    · exact Or.inr e
+    · rw [hasKey_insert_other _ _ e] at h
+      exact Or.inl (mem_keys_iff_hasKey.2 h)
+  · exact Or.inl h
+
 end Kopf.C04
